@@ -406,7 +406,7 @@ func (ex *Exec) binop(x *ssa.BinOp) Value {
 		if op == "" {
 			panic(unsupported("float operator " + x.Op.String()))
 		}
-		if op == "fdiv" && ex.realFloats {
+		if op == "fdiv" && ex.realFloats && !(ex.top != nil && ex.top.contract != nil && ex.top.contract.Pragmas["fdiv"] == "unchecked") {
 			// real division by zero is unspecified in SMT; IEEE gives Inf/NaN. Flag it.
 			ex.vc.Oblige("fdiv", ex.anchorText(x.Pos(), binExpr), ex.st.pc, Not(Eq(b, Term{"0.0", SReal})), ex.posString(x.Pos()))
 		}
